@@ -4,6 +4,7 @@ from checks import unitscheck
 MENUS = {
     'quick': [
         ('types', ['tA', 'tB', 'tM', 'tAB', 'tA2', 'tApB', 'tBi', 'tMpA', 'tA1', 'tA2_dup2', 'tA_dupsym', 'tMpA_dup', 'tA2_symdup'], 5),
+        ('partialref', ['tA', 'tB', 'tM', 'tAB', 'tABpM', 'tMpA', 'ka', 'm_ka_b'], 6),
         ('sameDef', ['tA', 'tA2', 'ka', 'ka2', 'kk', 'sq', 'ha', 'd_kk_ka', 'd_ka2_ka', 'm_ka_ka'], 6),
         ('units', ['tA', 'tB', 'tAB', 'tA2', 'ka', 'ha', 'cb', 'kab', 'ka2', 'kacb', 'sq', 'aa'], 6),
         ('terms3', ['tA', 'tB', 'ka', 'cb', 'kbc', 'kbc2', 'ha'], 6),
